@@ -1,16 +1,16 @@
-// h_stdin.h -- contract of the stdin script reader of btcdeb's main() (property C08: the script given on stdin):
+// h_stdin2.h -- contract of the stdin script reader of btcdeb's main() (property C08: the script given on stdin):
 // the script text is the line without its terminator - nothing else is removed, and nothing is read when there is no input.
 #pragma once
-extern "C" void h_stdin_script(void) {
+extern "C" void h_stdin_script2(void) {
     size_t n = nondet_size(); __CPROVER_assume(n <= 18);
     unsigned int term = nondet_uint() % 3u;                   // 0: no terminator (last line without newline), 1: LF, 2: CRLF
     for (size_t i = 0; i < 24; ++i) g_line[i] = 0;
     for (size_t i = 0; i < 18; ++i) if (i < n) { char c = (char)nondet_uchar(); __CPROVER_assume(c != 0 && c != '\n'); g_line[i] = c; }
     __CPROVER_assume(n == 0 || (g_line[n - 1] != '\r'));       // the content itself does not end in CR
     size_t m = n; if (term == 2) g_line[m++] = '\r'; if (term >= 1) g_line[m++] = '\n';
-    g_eof = nondet_bool();
+    g_eof = nondet_bool(); g_dup_calls = 0; g_freed_dup[0] = false; g_freed_dup[1] = false; g_free_calls = 0;
     char* r = verif_stdin_script();
-    __CPROVER_assert(r == g_dupbuf, "spec: a script string is produced");
+    __CPROVER_assert((r == g_dupbuf && !g_freed_dup[0]) || (r == g_dupbuf2 && !g_freed_dup[1]), "spec: a script string is produced (a live copy, not a released buffer)");
     if (g_eof) { __CPROVER_assert(r[0] == 0, "spec: without input the script is empty (no uninitialised bytes are parsed)"); return; }
     bool same = true; for (size_t i = 0; i < 18; ++i) if (i < n && r[i] != g_line[i]) same = false;
     __CPROVER_assert(same && r[n] == 0, "spec: the script is the input line without its LF / CRLF terminator, and nothing else is removed");
